@@ -7,7 +7,9 @@ sorted list of concrete file paths, applying all configured filters.
 
 from __future__ import annotations
 
+import functools
 import os
+import re
 from collections.abc import Iterable, Sequence
 from pathlib import Path
 
@@ -20,29 +22,32 @@ from flowmark.file_resolver.types import FileResolverConfig
 _GLOB_CHARS = frozenset("*?[")
 
 
+@functools.cache
+def _whole_path_regex(regex_source: str) -> re.Pattern[str]:
+    """`regex_source` required to match up to the very end of the path."""
+    return re.compile(f"(?:{regex_source})\\Z")
+
+
 def _gitignore_decision(spec: pathspec.PathSpec, rel: str, is_dir: bool) -> bool | None:
     """
     What one `.gitignore` says about the path `rel` (relative to its directory): True =
     ignored, False = re-included by a `!pattern`, None = no pattern applies. The last
-    matching pattern wins. Like git, a pattern must match the path itself: pathspec also
-    reports a match when a pattern matches one of the path's parent directories
+    matching pattern wins. Like git, a pattern must match the path itself: pathspec's
+    regexes also succeed when a pattern matches one of the path's parent directories
     (`docs/` or `!docs` "match" `docs/a.md`), but parents are decided on their own before
     their content is visited. Only a trailing `/**` genuinely means "everything inside"
     (and then does not match the directory itself).
     """
-    parent = rel.rstrip("/").rpartition("/")[0]
+    rel = rel.rstrip("/")
     for pattern in reversed(spec.patterns):
-        if pattern.include is None:
+        regex = getattr(pattern, "regex", None)
+        if pattern.include is None or regex is None:
             continue
-        inside_only = str(getattr(pattern, "pattern", "")).rstrip(" ").endswith("/**")
-        if inside_only:
-            if pattern.match_file(rel.rstrip("/")) is None:
+        if str(getattr(pattern, "pattern", "")).rstrip(" ").endswith("/**"):
+            if pattern.match_file(rel) is None:
                 continue
-        else:
-            if pattern.match_file(rel + ("/" if is_dir else "")) is None:
-                continue
-            if parent and pattern.match_file(parent + "/") is not None:
-                continue  # matched through a parent directory only
+        elif _whole_path_regex(regex.pattern).search(rel + "/" if is_dir else rel) is None:
+            continue
         return bool(pattern.include)
     return None
 
